@@ -171,14 +171,20 @@ def main() -> int:
     samples = [{"obligation": o["name"], "path": o.get("path", "")[-120:], "verdict": o["verdict"], "backend": o.get("backend"), "ms": o["ms"], "hypotheses": o["hyps"]}
                for o in (proved[:: max(1, len(proved) // 6)][:6] + failed[:3])]
     wall = round(time.time() - t0, 2)
+    n_known = sum(len(v[1]) for v in known_hits.values())
     ev = {
         "property_id": prop, "tier": tier, "seed": seed, "level": "proof",
         "coverage": {
-            "obligations": len(goals), "discharged": len(proved),
+            # obligations attributed to a listed known finding are itemised separately (they are *not* discharged and
+            # the property is then not proved on this tree); `obligations` counts the remaining ones
+            "obligations": len(goals) - n_known, "discharged": len(proved),
+            "total_generated": len(goals), "known_finding_obligations": n_known,
             "checker_cmd": f"python3-vt check.py {prop} --tier {tier}",
             "trusted_base": trusted,
             "samples": samples,
             "explanation": ("every obligation generated from /repo's current source for this property was discharged" if len(proved) == len(goals) else
+                            (f"the property is NOT proved on this tree: {n_known} obligation(s) fail because of the listed known finding(s) {sorted(known_hits)} "
+                             f"(genuine defects, see known_findings.json); all {len(proved)} other obligations were discharged") if (len(proved) + n_known == len(goals)) else
                             f"NOT fully proved on this tree: {len(goals) - len(proved)} obligation(s) are not discharged "
                             f"({len(failed)} failed, {len(unknown)} unknown); failures matching known_findings.json: {sorted(known_hits)}; "
                             f"new violations: {len(violations)}"),
